@@ -197,6 +197,11 @@ func VerifC18Snapshot() {
 	// saving is refused once the authorizer has been evaluated
 	_, err = src.SerializePolicies()
 	vAssert(err != nil, "C18.refused-after-authorize")
+	// ... and stays refused whatever is done to the evaluated authorizer next: loading a (valid) snapshot
+	// into it does not make it an unevaluated one -- what evaluation merged into it is still there
+	src.LoadPolicies(data)
+	_, err = src.SerializePolicies()
+	vAssert(err != nil, "C18.refused-after-authorize-and-load")
 	q, err := NewVerifier(g.tok, gPatient)
 	if err == nil {
 		gLoad(q, z)
